@@ -90,6 +90,10 @@ def run(ctx):
     for k, st in enumerate(s for s in states if s["k"] == 0 and s["input"]):
         recs = [POOL[p - 1] for p in st["input"]]
         jobs.append((f"e{k}", recs, k % 2 == 0, "bgzf" if k % 4 == 3 else "plain"))
+    # a GAF without records: every count is 0 (total = primary + secondary = 0), no read, no aligned base
+    jobs.append(("empty_plain", [], False, "plain"))
+    jobs.append(("empty_cigar", [], True, "plain"))
+    jobs.append(("empty_bgzf", [], True, "bgzf"))
     n_enum = len(jobs)
     for ri in range(2000 if ctx.thorough else 200):
         recs = []
